@@ -27,6 +27,25 @@ on_signal(int s)
   (void)s;
 }
 
+// Watchdog: a lost wake-up shows as waiters that make no progress.  Slowness under load is not an error: the alarm
+// re-arms itself as long as the number of completed waits keeps growing.
+static long watchdog_last = -1;
+
+static void
+on_alarm(int s)
+{
+  (void)s;
+  const long now = atomic_load(&waits_done);
+  if (now != watchdog_last) {
+    watchdog_last = now;
+    alarm(60);
+    return;
+  }
+  static const char msg[] = "stress STUCK: no wait completed for 60 s (lost wake-up?)\n";
+  if (write(1, msg, sizeof(msg) - 1)) {}
+  _exit(3);
+}
+
 static void*
 poster(void* arg)
 {
@@ -116,6 +135,11 @@ main(int argc, char** argv)
   memset(&sa, 0, sizeof(sa));
   sa.sa_handler = on_signal;   // no SA_RESTART: the system call returns EINTR
   sigaction(SIGUSR1, &sa, NULL);
+  struct sigaction wd;
+  memset(&wd, 0, sizeof(wd));
+  wd.sa_handler = on_alarm;
+  wd.sa_flags = SA_RESTART;
+  sigaction(SIGALRM, &wd, NULL);
   main_thread = pthread_self();
   while ((n = v_next(in, tok)) >= 0) {
     if (v_marker(n, tok)) continue;
@@ -133,7 +157,8 @@ main(int argc, char** argv)
       pthread_t th[64], ps[64], sg;
       post_units = units;
       wait_units = (int)per_waiter;
-      alarm(120);
+      watchdog_last = -1;
+      alarm(60);
       atomic_store(&running, 1);
       for (int i = 0; i < nw; ++i) pthread_create(&th[i], NULL, waiter, (void*)(size_t)i);
       Targets t = {th, nw};
@@ -141,9 +166,10 @@ main(int argc, char** argv)
       usleep(2000);   // let the waiters block first
       for (int i = 0; i < np; ++i) pthread_create(&ps[i], NULL, poster, (void*)(size_t)(1000 + i));
       for (int i = 0; i < np; ++i) pthread_join(ps[i], NULL);
-      for (int i = 0; i < nw; ++i) pthread_join(th[i], NULL);
+      // stop the signaller before any waiter is joined: pthread_kill on a joined thread is undefined
       atomic_store(&running, 0);
       if (sig) pthread_join(sg, NULL);
+      for (int i = 0; i < nw; ++i) pthread_join(th[i], NULL);
       alarm(0);
       const ZixStatus extra = zix_sem_try_wait(&sem);   // everything posted was consumed
       printf("stress errors=%ld overdraw=%ld waits=%ld expected=%ld leftover=%d\n", atomic_load(&errors), atomic_load(&overdraw),
